@@ -252,6 +252,36 @@ func drawC16(t *rapid.T) any {
 }
 
 func enumC16(emit func(c any) bool) {
+	// chains of empty announced containers that END the stream: the failing write
+	// is then the last one of the document and only the event issuing it can
+	// report it
+	for _, kinds := range [][]string{{"a"}, {"o"}, {"a", "a"}, {"a", "o"}, {"o", "a"}, {"o", "o"}, {"a", "o", "a"}, {"o", "a", "o"}} {
+		for _, innerLen := range []int{0, -1} {
+			var stream, closers []model.Ev
+			for i, k := range kinds {
+				l := 1
+				if i == len(kinds)-1 {
+					l = innerLen
+				}
+				if i > 0 && kinds[i-1] == "o" {
+					stream = append(stream, model.Ev{K: model.KKey, S: []byte("k")})
+				}
+				if k == "a" {
+					stream = append(stream, model.Ev{K: model.KArrStart, L: l})
+					closers = append([]model.Ev{{K: model.KArrEnd}}, closers...)
+				} else {
+					stream = append(stream, model.Ev{K: model.KObjStart, L: l})
+					closers = append([]model.Ev{{K: model.KObjEnd}}, closers...)
+				}
+			}
+			stream = append(stream, closers...)
+			for _, f := range formatNames {
+				if !emit(&C16Case{Target: "encoder", Format: f, Evs: stream}) {
+					return
+				}
+			}
+		}
+	}
 	// every extended event, empty and non-empty, through every encoder and the adapters
 	for _, size := range []int{0, 2} {
 		var events []model.Ev
@@ -304,7 +334,7 @@ var plainKinds = []string{model.KNil, model.KBool, model.KStr, model.KStrRef, mo
 func init() {
 	register(&Property{
 		ID:    "C16",
-		Rule:  "per generated case EVERY fault position is tried (runs of more than 512 steps: the first 256, the last 64 and an even stride of 192 through the middle): encoders (json, cborl, ubjson) with an io.Writer failing from the k-th Write on, for every k < number of writes of the dry run; parsers ({Parse, ParseReader over chunks, pull decoder}), Fold over generated Go values and the extended-event adapters with a visitor returning a sentinel at event k, for every k < number of events; oracle = some call returns a non-nil error (encoders) / the outermost call returns an error that is the sentinel (errors.Is) and no event follows the failing one; deterministic part: every extended event (empty and non-empty) and every scalar kind through every encoder and the adapters; non-trivial = more than one fault position in the case; distinct by case hash; the class counter fault_positions counts the injected faults",
+		Rule:  "per generated case EVERY fault position is tried (runs of more than 512 steps: the first 256, the last 64 and an even stride of 192 through the middle): encoders (json, cborl, ubjson) with an io.Writer failing from the k-th Write on, for every k < number of writes of the dry run; parsers ({Parse, ParseReader over chunks, pull decoder}), Fold over generated Go values and the extended-event adapters with a visitor returning a sentinel at event k, for every k < number of events; oracle = some call returns a non-nil error (encoders) / the outermost call returns an error that is the sentinel (errors.Is) and no event follows the failing one; deterministic part: chains of empty announced containers ending the stream, every extended event (empty and non-empty) and every scalar kind through every encoder and the adapters; non-trivial = more than one fault position in the case; distinct by case hash; the class counter fault_positions counts the injected faults",
 		New:   func() any { return &C16Case{} },
 		Draw:  drawC16,
 		Check: checkC16,
